@@ -388,7 +388,7 @@ func nativeRaceRun(p *interp.Program, harness string) ([]string, error) {
 	dir, pn := harnessPkg(p, harness)
 	work, _ := os.MkdirTemp(filepath.Join(verifDir, ".work"), "race-")
 	defer os.RemoveAll(work)
-	src := "//go:build verif\n\npackage " + pn + "\n\nimport (\n\t\"testing\"\n\n\t\"github.com/scigolib/hdf5/internal/vrt\"\n)\n\nfunc TestVerifRace(t *testing.T) {\n\tout, _ := vrt.Run(" + harness + ", nil)\n\tt.Log(out)\n}\n"
+	src := "//go:build verif\n\npackage " + pn + "\n\nimport (\n\t\"os\"\n\t\"testing\"\n\n\t\"github.com/scigolib/hdf5/internal/vrt\"\n)\n\nfunc TestVerifRace(t *testing.T) {\n\t_ = os.Chdir(t.TempDir())\n\tout, _ := vrt.Run(" + harness + ", nil)\n\tt.Log(out)\n}\n"
 	testFile := filepath.Join(work, "zz_verif_race_test.go")
 	os.WriteFile(testFile, []byte(src), 0o644)
 	repl := map[string]string{}
